@@ -144,7 +144,7 @@ def ipv4_addr(comp_expr):
 
         try:
             ip_bytes = socket.inet_aton(ip_str)
-        except OSError:
+        except (OSError, ValueError):
             # illegal IPv4 address string
             return
 
@@ -206,7 +206,7 @@ def ipv6_addr(comp_expr):
 
         try:
             ip_bytes = socket.inet_pton(socket.AF_INET6, ip_str)
-        except OSError:
+        except (OSError, ValueError):
             # illegal IPv6 address string
             return
 
